@@ -414,6 +414,11 @@ class EWorld(seq.World):
                                        trigger=False)
         elif kind == 'Next':
             supv.starter.next()
+        elif kind == 'Disable':
+            # real disability event of the program on one instance (XML-RPC disable/enable on that Supervisor)
+            _, i, a, p, flag = o
+            supv.fsm.on_process_disability_event(ctx.instances[ident(i)],
+                                                 {'group': aname(a), 'name': pname(p), 'disabled': bool(flag)})
         else:
             if kind == 'Event':
                 # the request is answered as soon as the event is delivered (the process information is updated
@@ -485,8 +490,8 @@ def gen_rule(rng, stereotypes):
 
 
 def gen_config(rng):
-    n_nodes = rng.randint(1, 3)
-    n_running = rng.randint(2, N_INST)
+    n_nodes = rng.choice([1, 2, 2, 3])
+    n_running = rng.choice([2, 3, 4, 4, 5, 5, 6, 6])
     running = {1} | set(rng.sample(range(2, N_INST + 1), n_running - 1))
     insts = []
     for i in range(1, N_INST + 1):
@@ -506,7 +511,7 @@ def gen_config(rng):
     same_prio = rng.random() < 0.7
     for a in range(1, rng.randint(1, 4) + 1):
         procs = []
-        dist = rng.choice([0, 0, 0, 1, 1, 2])
+        dist = rng.choice([0, 0, 0, 1, 1, 2, 2])
         # a non-distributed application needs one instance (node) fit for ALL its programs: mostly friendly set-ups
         friendly = dist != 0 and rng.random() < 0.75
         for p in range(1, rng.randint(1, 4) + 1):
@@ -523,6 +528,13 @@ def gen_config(rng):
                           'required': seq_no > 0 and rng.random() < 0.3, 'sfs': rng.randint(0, 2),
                           'wait_exit': rng.random() < 0.1,
                           'running_on': rng.choice(run_cands) if run_cands and rng.random() < 0.07 else None})
+        if dist != 0 and rng.random() < 0.6:
+            # an on-demand sibling, disabled on SOME instances only: the program added to the job in progress
+            disabled = sorted(rng.sample(range(1, N_INST + 1), rng.randint(1, 4)))
+            procs.append({'name': len(procs) + 1, 'load': rng.choice([0, 5, 10, 10, 20]), 'seq': 0, 'rule': [0],
+                          'known': list(range(1, N_INST + 1)), 'disabled': disabled if dist == 2 else [],
+                          'startsecs': 1, 'behaviour': 'normal', 'required': False, 'sfs': 2, 'wait_exit': False,
+                          'running_on': None})
         apps.append({'name': a, 'managed': rng.random() < 0.93, 'start': 1 if same_prio else rng.choice([1, 1, 2]),
                      'strategy': rng.randint(0, 5), 'dist': dist,
                      'rule': [0] if friendly and rng.random() < 0.6 else gen_rule(rng, stereotypes), 'procs': procs})
@@ -590,6 +602,38 @@ class Sim:
             return ('StartAppD' if deferred else 'StartApp', strat, a)
         return ('StartProcD' if deferred else 'StartProc', strat, a, p)
 
+    def sibling_start(self):
+        """ a non-distributed application whose job is in progress with its instances chosen: start ANOTHER program
+        of that application (-> add_commands -> on_command_added); half of the time the program is first disabled
+        (real disability event) on one of the chosen instances. Only a program that is stopped and has no command
+        anywhere is touched, so that no pre-assigned command is invalidated by the disability. """
+        rng = self.rng
+        starter = self.w.supv.starter
+        busy = set()
+        for j in list(starter.current_jobs.values()) + [j for m in starter.planned_jobs.values() for j in m.values()]:
+            for c in j.current_jobs + [c for cs in j.planned_jobs.values() for c in cs]:
+                busy.add((anum(c.process.application_name), anum(c.process.process_name)))
+        cands = []
+        for job in starter.current_jobs.values():
+            if int(job.distribution.value) == 0 or not job.identifiers:
+                continue
+            a = anum(job.application_name)
+            for process in job.application.processes.values():
+                p = anum(process.process_name)
+                if (a, p) not in busy and (a, p) not in self.w.pending and int(process.state) in STOPPED_CODES:
+                    cands.append((job, a, p, process))
+        if not cands:
+            return False
+        job, a, p, process = rng.choice(cands)
+        if rng.random() < 0.5:
+            chosen = [num(x) for x in job.identifiers if x in process.info_map and not process.info_map[x]['disabled']]
+            others = [x for x in process.info_map if not process.info_map[x]['disabled'] and num(x) not in chosen]
+            if chosen and (others or len(chosen) > 1):     # never disabled on every instance
+                self.do(('Disable', rng.choice(chosen), a, p, True))
+        if not self.crashed:
+            self.do(('StartProc', rng.randint(0, 5), a, p))
+        return True
+
     def tick_round(self):
         ticks = []
         for i in self.alive:
@@ -631,8 +675,11 @@ class Sim:
                 self.queue.remove(e)
                 _, i, a, p, st, expected = e
                 self.do(('Event', i, a, p, st, expected, self.now))
-            elif r < 0.72:
+            elif r < 0.68:
                 self.tick_round()
+            elif r < 0.80:
+                if not self.sibling_start():
+                    self.do(self.trigger(False))
             elif r < 0.92:
                 self.do(self.trigger(False))
             elif r < 0.96:
@@ -794,6 +841,26 @@ def probe_lost_target():
     return [(d['cmd'][:4], d['obs'], [x[:2] for x in d['layout']['insts']]) for d in w.decisions]
 
 
+def witness_added_disabled(dist):
+    """ a program added to a non-distributed job in progress must not be placed where it is disabled.
+    Instances 1 and 3 RUNNING on node 1; application {main: seq 1, tool: on demand}, CONFIG strategy.
+    SINGLE_NODE (dist 2): tool is disabled on 1 from the start; start_application chooses node 1 (identifiers 1, 3, 5),
+    main is requested on 1; start_process(tool) while main is pending -> on_command_added must give 3, not 1.
+    SINGLE_INSTANCE (dist 1): instance 1 is chosen for the job; tool gets disabled on 1 (disability event) while main
+    is pending; start_process(tool) -> no target ('No resource available'), never a request on 1. """
+    cf = {'now': 1000, 'insts': base_insts({1, 3}), 'nodes': [(1, [1, 3, 5]), (2, [2, 4, 6])], 'stereotypes': [],
+          'ballast': [],
+          'apps': [{'name': 1, 'managed': True, 'start': 1, 'strategy': 0, 'dist': dist, 'rule': [0],
+                    'procs': [proc_cf(1, 10, 1, behaviour='never'),
+                              proc_cf(2, 10, 0, disabled=[1] if dist == 2 else [])]}]}
+    ops = [(('StartApp', 0, 1), 1000)]
+    if dist == 1:
+        ops.append((('Disable', 1, 1, 2, True), 1001))
+    ops += [(('StartProc', 0, 1, 2), 1002), (('Event', 1, 1, 1, 'STARTING', True, 1003), 1003),
+            (('Event', 1, 1, 1, 'RUNNING', True, 1004), 1004)]
+    return {'cf': cf, 'ops': ops}
+
+
 # ---------------------------------------------------------------- the suite
 class EligibilitySuite(Suite):
     name = 'eligibility'
@@ -813,7 +880,8 @@ class EligibilitySuite(Suite):
                 for _ in range(n)]
 
     def corpus(self):
-        out = [witness_a(), witness_b(), witness_b2(), witness_a_sibling(), witness_reentrancy()]
+        out = [witness_a(), witness_b(), witness_b2(), witness_a_sibling(), witness_reentrancy(),
+               witness_added_disabled(2), witness_added_disabled(1)]
         path = os.path.join(os.path.dirname(__file__), 'corpus', 'eligibility.json')
         if os.path.exists(path):
             with open(path) as f:
@@ -898,7 +966,8 @@ class EligibilitySuite(Suite):
         d = {'runs': len(inputs), 'decisions': 0, 'outcome': {}, 'dist': {}, 'strategy': {}, 'befores': 0, 'adds': 0,
              'adds_refused': 0, 'running_instances': {}, 'nodes': {}, 'sent_with_pending_requests': 0,
              'sent_node_total_over_100': 0, 'sent_rule': {'wildcard': 0, 'list': 0}, 'ops': {}, 'crashed_runs': 0,
-             'on_demand_decisions': 0, 'decisions_with_foreign_load': 0}
+             'on_demand_decisions': 0, 'decisions_with_foreign_load': 0, 'adds_in_chosen_job': 0,
+             'adds_disabled_on_chosen': 0, 'adds_placed': 0}
         for inp, obs in zip(inputs, observeds):
             nrun = sum(1 for x in inp['cf']['insts'] if x[1] == RUNNING_STATE)
             d['running_instances'][str(nrun)] = d['running_instances'].get(str(nrun), 0) + 1
@@ -907,6 +976,12 @@ class EligibilitySuite(Suite):
             d['befores'] += len(obs['befores'])
             d['adds'] += len(obs['adds'])
             d['adds_refused'] += sum(1 for a in obs['adds'] if a['obs'][0] == 'ok' and not a['obs'][1][0])
+            for a in obs['adds']:
+                if a['obs'][0] == 'ok' and a['obs'][1][0] and a['dist'] != 0 and a['jobs']['identifiers']:
+                    d['adds_in_chosen_job'] += 1
+                    dis = set(a['cmd'][5]) & set(a['jobs']['identifiers'])
+                    d['adds_disabled_on_chosen'] += bool(dis)
+                    d['adds_placed'] += a['obs'][1][1] is not None
             d['crashed_runs'] += obs['crash'] is not None
             for o, _ in obs['ops']:
                 d['ops'][o[0]] = d['ops'].get(o[0], 0) + 1
